@@ -120,38 +120,76 @@ type form struct {
 
 var noForm = form{"none", 0, "none"}
 
+// slot is one varying position of a call: its class name (used in keys), its Elvish source and the
+// BENIGN source for that position (a valid value; "*" in a key = "the crash does not need this
+// position to deviate from the benign call").
+type slot struct {
+	Class  string `json:"class"`
+	Src    string `json:"src"`
+	Benign string `json:"benign"`
+}
+
 // call is one evaluation of the sweep.
 type call struct {
-	ID      int      `json:"id"`
-	Kind    string   `json:"kind"` // call | redir | pipe
-	Cmd     string   `json:"cmd"`
-	Classes []string `json:"classes"`
-	Code    string   `json:"code"`
-	Form    form     `json:"form"`
-	Probe   string   `json:"probe,omitempty"` // known-finding key this call is a directed probe for
+	ID    int    `json:"id"`
+	Kind  string `json:"kind"` // call | redir | pipe
+	Cmd   string `json:"cmd"`  // command name; "redir" / "redir&" ; "pipe"
+	Mod   string `json:"mod,omitempty"`
+	Slots []slot `json:"slots"`
+	Code  string `json:"code"`
+	Form  form   `json:"form"`
+	Probe string `json:"probe,omitempty"` // known-finding key this call is a directed probe for
+}
+
+func (c call) classes() []string {
+	out := make([]string, len(c.Slots))
+	for i, s := range c.Slots {
+		out[i] = s.Class
+	}
+	return out
 }
 
 // stem is the stable structural key of a call: "<command>:<class>,<class>…".
-func (c call) stem() string { return c.Cmd + ":" + strings.Join(c.Classes, ",") }
+func (c call) stem() string { return c.Cmd + ":" + strings.Join(c.classes(), ",") }
 
-func cmdCode(cm cmd, srcs []string) string {
-	s := cm.Name
+// code renders a call from the sources of its slots.
+func code(kind, cmd, mod string, srcs []string) string {
+	switch kind {
+	case "redir":
+		amp := ""
+		if cmd == "redir&" {
+			amp = "&"
+		}
+		return srcs[0] + " " + srcs[1] + srcs[2] + amp + srcs[3]
+	case "pipe":
+		return srcs[0] + " | " + srcs[1]
+	}
+	s := cmd
 	if len(srcs) > 0 {
 		s += " " + strings.Join(srcs, " ")
 	}
-	if cm.Mod != "" {
-		return "use " + cm.Mod + "; " + s
+	if mod != "" {
+		return "use " + mod + "; " + s
 	}
 	return s
 }
 
-func mkCall(cm cmd, cls []class) call {
-	names := make([]string, len(cls))
-	srcs := make([]string, len(cls))
-	for i, c := range cls {
-		names[i], srcs[i] = c.Name, c.Src
+func (c call) srcs() []string {
+	out := make([]string, len(c.Slots))
+	for i, s := range c.Slots {
+		out[i] = s.Src
 	}
-	return call{Kind: "call", Cmd: cm.Name, Classes: names, Code: cmdCode(cm, srcs), Form: noForm}
+	return out
+}
+
+func mkCall(cm cmd, cls []class) call {
+	sl := make([]slot, len(cls))
+	for i, c := range cls {
+		sl[i] = slot{c.Name, c.Src, benign(cm, i)}
+	}
+	c := call{Kind: "call", Cmd: cm.Name, Mod: cm.Mod, Slots: sl, Form: noForm}
+	c.Code = code(c.Kind, c.Cmd, c.Mod, c.srcs())
+	return c
 }
 
 // enumerate builds the sweep: arity 0..maxExh exhaustively, plus nSample seeded calls of arity
@@ -168,7 +206,7 @@ func enumerate(tab []cmd, maxExh, nSample int, rnd *rand.Rand) (calls []call, sk
 	var rec func(cm cmd, prefix []class, depth int)
 	rec = func(cm cmd, prefix []class, depth int) {
 		c := mkCall(cm, prefix)
-		if clamped(cm.Name, c.Classes) {
+		if clamped(cm.Name, c.classes()) {
 			nClamped++
 		} else {
 			calls = append(calls, c)
@@ -190,7 +228,7 @@ func enumerate(tab []cmd, maxExh, nSample int, rnd *rand.Rand) (calls []call, sk
 			cls = append(cls, pool[rnd.Intn(len(pool))])
 		}
 		c := mkCall(cm, cls)
-		if clamped(cm.Name, c.Classes) {
+		if clamped(cm.Name, c.classes()) {
 			nClamped++
 			continue
 		}
@@ -208,7 +246,9 @@ type fdClass struct {
 var fdDst = []fdClass{
 	{"none", []string{""}},
 	{"neg", []string{"-1", "-2", "-1000", "-9223372036854775808"}},
-	{"std", []string{"0", "1", "2", "stdin", "stdout", "stderr"}},
+	{"stdin", []string{"0", "stdin"}},
+	{"stdout", []string{"1", "stdout"}},
+	{"stderr", []string{"2", "stderr"}},
 	{"unopened", []string{"3", "7", "100", "1024"}},
 	{"maxint", []string{"9223372036854775807"}},
 	{"big", []string{"9223372036854775808", "18446744073709551616"}},
@@ -216,9 +256,11 @@ var fdDst = []fdClass{
 }
 
 var fdSrc = []fdClass{ // after "&"
-	{"neg", []string{"-2", "-1", "-1000", "-9223372036854775808"}},
-	{"close", []string{"-"}},
-	{"std", []string{"1", "0", "2", "stderr"}},
+	{"neg", []string{"-2", "-1000", "-9223372036854775808"}}, // (-1 means "close", like "-")
+	{"close", []string{"-", "-1"}},
+	{"stdin", []string{"0", "stdin"}},
+	{"stdout", []string{"1", "stdout"}},
+	{"stderr", []string{"2", "stderr"}},
 	{"unopened", []string{"3", "77", "1024"}},
 	{"maxint", []string{"9223372036854775807"}},
 	{"big", []string{"9223372036854775808", "18446744073709551616"}},
@@ -238,8 +280,10 @@ var valSrc = []fdClass{ // plain (non-&) sources
 }
 
 var redirOps = []string{">", ">>", "<", "<>"}
-var redirCmds = []string{"echo a", "put a", "nop"}
+var redirCmds = []fdClass{{"echo", []string{"echo a"}}, {"put", []string{"put a"}}, {"nop", []string{"nop"}}}
 
+// redirForms: <command> <dst><op>[&]<src>; slots: command, destination, operator, source.  The
+// benign call is `nop >out.txt` / `nop >&1`.
 func redirForms(rnd *rand.Rand) []call {
 	var out []call
 	pickTxt := func(fc fdClass, round int) string {
@@ -248,19 +292,21 @@ func redirForms(rnd *rand.Rand) []call {
 		}
 		return fc.Txt[rnd.Intn(len(fc.Txt))]
 	}
+	add := func(kind string, cm, d fdClass, op string, s fdClass, benignSrc string, round int) {
+		sl := []slot{{cm.Name, cm.Txt[0], "nop"}, {"dst=" + d.Name, pickTxt(d, round), ""}, {op, op, ">"}, {"src=" + s.Name, pickTxt(s, round), benignSrc}}
+		c := call{Kind: "redir", Cmd: kind, Slots: sl, Form: noForm}
+		c.Code = code(c.Kind, c.Cmd, "", c.srcs())
+		out = append(out, c)
+	}
 	for _, cm := range redirCmds {
 		for _, d := range fdDst {
 			for _, op := range redirOps {
-				for _, s := range fdSrc {
-					for round := 0; round < 2; round++ {
-						code := fmt.Sprintf("%s %s%s&%s", cm, pickTxt(d, round), op, pickTxt(s, round))
-						out = append(out, call{Kind: "redir", Cmd: "redir", Classes: []string{"dst=" + d.Name, op + "&", "src=" + s.Name}, Code: code, Form: noForm})
+				for round := 0; round < 2; round++ {
+					for _, s := range fdSrc {
+						add("redir&", cm, d, op, s, "1", round)
 					}
-				}
-				for _, s := range valSrc {
-					for round := 0; round < 2; round++ {
-						code := fmt.Sprintf("%s %s%s%s", cm, pickTxt(d, round), op, pickTxt(s, round))
-						out = append(out, call{Kind: "redir", Cmd: "redir", Classes: []string{"dst=" + d.Name, op, "src=" + s.Name}, Code: code, Form: noForm})
+					for _, s := range valSrc {
+						add("redir", cm, d, op, s, "out.txt", round)
 					}
 				}
 			}
@@ -295,8 +341,10 @@ func pipeForms() []call {
 	var out []call
 	for _, p := range prods {
 		for _, q := range cons {
-			out = append(out, call{Kind: "pipe", Cmd: "pipe", Classes: []string{strings.ReplaceAll(p.Code, ",", ";"), strings.ReplaceAll(q.Code, ",", ";")},
-				Code: p.Code + " | " + q.Code, Form: form{p.Band, p.Count, q.Band}})
+			c := call{Kind: "pipe", Cmd: "pipe", Slots: []slot{{strings.ReplaceAll(p.Code, ",", ";"), p.Code, "nop"}, {strings.ReplaceAll(q.Code, ",", ";"), q.Code, "nop"}},
+				Form: form{p.Band, p.Count, q.Band}}
+			c.Code = code(c.Kind, c.Cmd, "", c.srcs())
+			out = append(out, c)
 		}
 	}
 	return out
@@ -343,6 +391,7 @@ func probeFromKey(key string, tab []cmd) (call, bool) {
 				cs = append(cs, class{"*", benign(*cm, pos)})
 				continue
 			}
+			_ = pos
 			c, ok := classByName(n)
 			if !ok {
 				return call{}, false
